@@ -155,6 +155,7 @@ def run(ctx):
         R.ob(mentions(opr, "get_pending_tx_op_return_tx_id") and W.strip(opr)[0] != "param", "WIRE", c.where(), "WIRE|drain|op_return",
              "a drained (parked-then-executed) transaction sees `%s` as its Bitcoin transaction id, not the one stored with it" % show(opr)[:100],
              sample={"rule": "WIRE", "sink": "drain -> op_return_tx_id", "origin": show(opr)[:100]})
+    ER.clause_park_rows_together(R, F)
     # controller loaders use the indexer address as sender
     for ln in ("load_brc20_mint_tx", "load_brc20_burn_tx", "load_brc20_deploy_tx"):
         lf = [f for f in F.fns.values() if f.name.endswith("brc20_controller::" + ln)]
